@@ -49,44 +49,24 @@ var suites = map[string]*Suite{}
 
 func register(s *Suite) { suites[s.Name] = s }
 
+// worker subcommands (one process per case/dataset); registered from the file that implements them so that
+// a property-minimal build (lib/runner.py build_corr_min) can leave other properties' files out
+var workers = map[string]func(){}
+
+func registerWorker(name string, f func()) { workers[name] = f }
+
 func main() {
 	log.SetOutput(io.Discard)
 	log.SetLevel(log.PanicLevel)
-	if len(os.Args) < 2 || (len(os.Args) < 3 && os.Args[1] != "e2eworker" && os.Args[1] != "mworker" && os.Args[1] != "list") {
+	if len(os.Args) < 2 || (len(os.Args) < 3 && workers[os.Args[1]] == nil && os.Args[1] != "list") {
 		fmt.Fprintln(os.Stderr, "usage: corr gen|exec|list ...")
 		os.Exit(2)
 	}
+	if w := workers[os.Args[1]]; w != nil { // worker subcommands register themselves (registerWorker in their own files)
+		w()
+		return
+	}
 	switch os.Args[1] {
-	case "e2eworker":
-		e2eWorkerMain()
-		return
-	case "mworker":
-		mWorkerMain()
-		return
-	case "c16worker": // C16 protocol-level event time, one case per process (c16_proto.go)
-		c16WorkerMain()
-		return
-	case "c16cworker": // C16 protocol-level event content, one case per process (c16_content.go)
-		c16cWorkerMain()
-		return
-	case "c12kworker": // C12 selection / percentile / RED kernels in a child process (c12_trace.go)
-		c12kWorkerMain()
-		return
-	case "c12worker": // C12 trace views end to end, one dataset per process (c12_e2e.go)
-		c12WorkerMain()
-		return
-	case "c11worker": // C11 deterministic schedule replay, one schedule per process (c11_conc.go)
-		c11WorkerMain()
-		return
-	case "c11stress": // C11 exploration: concurrent stress run (c11_stress.go)
-		c11StressMain()
-		return
-	case "c17worker": // C17 query lifecycle: real table operations under a watchdog, abandoned on a deadlock (c17_qlife.go)
-		c17WorkerMain()
-		return
-	case "tnworker": // C13 tenant isolation end to end, one dataset per process (c13_tenant_e2e.go)
-		tnWorkerMain()
-		return
 	case "list":
 		names := []string{}
 		for k := range suites {
